@@ -90,6 +90,17 @@ def main():
         from pyvc import prove
         prove.EXTRACT_PATH = xpath
         pres = prove.run(prop, tier)
+        # 2b. replay counter-models / candidate models on the real code
+        rres = None
+        if any(o["verdict"] != "proved" and "witness" in o for r in pres["results"] for o in r["obligations"]):
+            rout = os.path.join(ROOT, "build", f"{prop}.replays.json")
+            p = sh([VENV_PY, os.path.join(ROOT, "pyvc", "replay.py"), prop,
+                    os.path.join(ROOT, "build", f"{prop}.obligations.json"), rout], 600)
+            if p.returncode == 0 and os.path.exists(rout):
+                with open(rout) as fh:
+                    rres = json.load(fh)
+            else:
+                print(p.stdout[-1500:], p.stderr[-3000:])
         # 3. bounded stand-in / replays
         bres = None
         bmod = os.path.join(ROOT, "bounded", prop.lower() + ".py")
@@ -106,7 +117,7 @@ def main():
                 sys.exit(3)
             with open(bout) as fh:
                 bres = json.load(fh)
-        code = report.finish(ROOT, prop, tier, seed, pres, bres, t0, write_expected=a.write_expected)
+        code = report.finish(ROOT, prop, tier, seed, pres, bres, t0, write_expected=a.write_expected, rres=rres)
         sys.exit(code)
     except SystemExit:
         raise
